@@ -248,6 +248,8 @@ func stressEpisode(t *tlog, seed int64, ep int) (sig, what string) {
 				// a stayer leaves only after it has every broadcast whose Send found it registered
 				deadline := time.Now().Add(expectTimeout)
 				for {
+					// read the flag first: once all Sends have returned, expected[name] is final
+					allSent := sendsDone.Load()
 					w.mu.Lock()
 					missing := 0
 					for b := range w.expected[name] {
@@ -256,7 +258,7 @@ func stressEpisode(t *tlog, seed int64, ep int) (sig, what string) {
 						}
 					}
 					w.mu.Unlock()
-					if sendsDone.Load() && missing == 0 {
+					if allSent && missing == 0 {
 						break
 					}
 					if time.Now().After(deadline) {
